@@ -43,7 +43,7 @@ from psyclone.configuration import Config
 from psyclone.psyGen import BuiltIn, Kern, HaloExchange, GlobalSum
 from psyclone.psyir.nodes import (CodeBlock, ExtractNode, Loop, Schedule,
                                   Directive, OMPParallelDirective,
-                                  ACCParallelDirective)
+                                  ACCParallelDirective, Return)
 from psyclone.psyir.transformations.psy_data_trans import PSyDataTrans
 from psyclone.psyir.transformations.transformation_error \
     import TransformationError
@@ -73,7 +73,7 @@ class ExtractTrans(PSyDataTrans):
     '''
     # The types of node that this transformation cannot enclose
     excluded_node_types = (CodeBlock, ExtractNode,
-                           HaloExchange, GlobalSum)
+                           HaloExchange, GlobalSum, Return)
 
     def __init__(self, node_class=ExtractNode):
         # This function is required to provide the appropriate default
